@@ -17,6 +17,14 @@ PredChainsQuick == {<<pf>> : pf \in PredictorFilters} \cup {<<pf, x>> : pf \in P
                    \cup {<<x, pf>> : x \in {"LZW", "A85"}, pf \in PredictorFilters}
 GeoPred == {<<3, 2>>, <<5, 4>>}
 GeoPredQuick == {<<4, 3>>}
+PlainOnly == {"plain"}
+Encrypted == {"RC4", "AESV2"}
+\* every export route that can be realised: jpeg (DCT alone, DCT behind ASCII85), bitmap (unfiltered, Flate, LZW), raw (cmyk + LZW)
+EncChains == {<<>>, <<"Flate">>, <<"LZW">>, <<"DCT">>, <<"A85", "DCT">>}
+GeoEnc == {<<3, 2>>}
+\* enough codes behind the clear code for the width switch of LZW (/EarlyChange 0 and 1 differ from 510 / 511 entries on)
+GeoLZW == {<<32, 24>>}
+LZWChains == {<<"LZW">>, <<"LZWE0">>, <<"LZWE1">>, <<"A85", "LZWE0">>}
 KindsBmp == {"bw", "gray", "rgb"}
 KindsAll == {"bw", "gray", "rgb", "cmyk"}
 KindGray == {"gray"}
